@@ -422,7 +422,7 @@ pub fn run(ctx: &mut Ctx) {
     }
     for c in ctx.corpus_cases("load") { replay_line(ctx, &tp, &c); ctx.count("corpus"); }
     // 1. abstract manifests under two spellings
-    let n = if ctx.thorough() { 40_000 } else { 2_000 };
+    let n = if ctx.thorough() { 40_000 } else { 5_000 };
     for i in 0..n {
         let dup = i % 4 == 3;
         let m = gen_manifest(&mut ctx.rng, dup);
